@@ -1,7 +1,8 @@
 (* Extraction of the executable model to OCaml.  ExtrOcamlBasic only: bool, option, unit,
    list, prod, sumbool map to OCaml's; Z, positive, N, nat, comparison stay Coq datatypes. *)
 From Coq Require Import ExtrOcamlBasic.
-From S3db Require Import Base KeyOrder RowMerge Tree Store KvProto Inst.
+From S3db Require Import Base KeyOrder RowMerge Tree Store KvProto Inst Stmt SqlSession.
+From S3db.spec Require Import SpecMerge.
 Extraction Language OCaml.
 Extraction "model.ml"
   Base.bytes_cmp Base.cmp_to_Z
@@ -15,4 +16,8 @@ Extraction "model.ml"
   KvProto.open KvProto.commit KvProto.kv_set KvProto.kv_tombstone KvProto.kv_get KvProto.kv_is_tombstoned
   KvProto.kv_is_dirty KvProto.kv_remove_tombstones KvProto.kv_roots KvProto.kv_dump KvProto.kv_diff
   KvProto.delete_historic KvProto.trace_history KvProto.raw_diff
+  SqlSession.sconn0 SqlSession.sql_create SqlSession.sql_refresh SqlSession.sql_insert SqlSession.sql_update SqlSession.sql_delete
+  SqlSession.sql_begin SqlSession.sql_commit SqlSession.sql_rollback SqlSession.sql_select SqlSession.sql_version SqlSession.sql_vacuum
+  SqlSession.sql_set_write_time SqlSession.finish_rollback SqlSession.find_rows
+  SpecMerge.interp
   Inst.cfg_plain Inst.cfg_rows Inst.obj_eqb_plain Inst.obj_eqb_rows Inst.run_plain Inst.run_rows.
